@@ -431,6 +431,15 @@ def _mirsym():
         bounds="ASCII strings of length 0-4 (quick) / 0-6 (thorough) with 1-3 symbolic bytes (the rest fixed digits of the alphabet); non-ASCII bytes outside the claim (str::chars UTF-8 decoding is not modelled)",
         spec=ssf.HexFlagSpec(), assumptions=["bytes < 0x80"])
 
+    from .specs import partseg as sps
+    add("C14.b/partition_segment_roundtrip", "C14", "mirsym", Q,
+        "PartitionSegment::serialize then PartitionSegment::deserialize (the partition file codec) reproduce every column: name, length, range, every CodecOp variant with its payload (types, offsets, lengths, flags) and every DataSection variant with its payload - the hand-written enum <-> capnp union mapping is one-to-one",
+        ["disk_store::partition_segment::PartitionSegment::{serialize,deserialize} (+ closures)", "partition_segment::{encoding_type_to_capnp,deserialize_type}", "mem_store::column::Column::{name,len,range,codec,data}", "Codec::ops"],
+        bounds="11 column shapes covering every CodecOp variant (Add, Delta, ToI64, PushDataSection, DictLookup, LZ4, Pco, UnpackStrings, UnhexpackStrings, Nullable) and every DataSection variant (U8..I64, F64, Null, Bitvec, LZ4, Pco) with symbolic payloads (1-2 elements per section), plus 1 (quick) / 2 (thorough) multi-column files; capnp runtime + generated accessors modelled from the tree's .capnp schema, Column::new a recorder",
+        spec=sps.PartitionSegmentSpec(),
+        stubs=["capnp generated accessors (set_/get_/init_/which, list builders/readers) -> record model driven by locustdb-serialization/schemas/partition_segment.capnp", "capnp::serialize_packed::{write_message,read_message} -> identity on the record tree", "Column::new -> recorder"],
+        assumptions=["capnpc-generated accessors and the capnp runtime implement the record semantics of vlib/mirsym/capnp_model.py (init_x allocates a fresh zeroed value and selects the union member, set_x stores and selects, get_x reads what was stored or the schema default, which() reports the member selected last); serialize_packed is lossless"])
+
 
 _mirsym()
 
